@@ -81,6 +81,24 @@ def c10(pid, tier, t0):
         "the depth-limit counter is the only hook (regex.c, NEATVI_VERIF)"])
 
 
+@check("C11")
+def c11(pid, tier, t0):
+    exe = nv.build_harness("c11_pattern", "asan", ["c11_pattern.c", "peek_regex.c"], replace=["regex"])
+    res = nv.run_shards(exe, ["tier=" + tier, "deadline=%d" % dl(tier)], nv.NCPU, dl(tier) + 120)
+    if tier == "thorough":
+        exe2 = nv.build_harness("c11_pattern", "plain", ["c11_pattern.c", "peek_regex.c"], replace=["regex"], extra_flags=["-O2"])
+        res = nv.run_shards(exe2, ["tier=" + tier, "deadline=%d" % dl(tier), "exact=1", "len=6"], nv.NCPU, dl(tier) + 120, res=res, tag="x")
+    return nv.finish(pid, tier, t0, res, {
+        "rule": "every string of <= pattern_len symbols over the 24-symbol alphabet a ( ) [ ] ^ $ | * + ? { } , 1 2 \\ < > . - : 0xC3 0xA9, plus the repetition-bound family "
+                "X{m} X{m,} X{,n} X{m,n} (X{m,n}){p,q} with bounds in {0,1,2,127,128,129,255,4294967295,99999999999}, group-count family (a)xk, long runs; "
+                "each compiled directly (program length vs allocation), via the pattern-set and single-pattern matchers, icase on/off, and matched against 10 UTF-8 lines x notbol x noteol; "
+                "non-trivial = pattern that compiles",
+        "depth_bound": res.stats.get("pattern_len"),
+        "explanation": "AddressSanitizer build, each case in a forked child so that a sanitizer abort, signal or hang is attributed to its pattern; pattern strings are exact-size heap copies",
+    }, ["lines are valid UTF-8 and <= 12 characters; the property's 'random longer strings' clause is sampling and is not used",
+        "thorough adds length 6 on the plain build with only the exact program-length check"])
+
+
 def replay(path):
     print("replay artefact:")
     print(open(path).read())
